@@ -95,20 +95,26 @@ def readPlace (m : MState w) (sz : Size) : Place → Option (BitVec 64)
   | .cell i => if sz.bits = w then some ((m.tape i).setWidth 64) else none
   | .slot k => if sz = .b64 then some (m.stack k) else none
 
-/-- Write the low `sz` bits of `v` into register `r` with the x86 rules for the rest of the register:
-64 = all, 32 = zero the upper half, 16/8 = keep the other bits. Writing `rsp`/`rbp` is outside the
-subset. -/
+/-- `2^n - 1` as a 64-bit mask (`lowMask 8 = 0xFF`, `lowMask 16 = 0xFFFF`). -/
+def lowMask (n : Nat) : BitVec 64 := (BitVec.allOnes n).setWidth 64
+
+/-- `old` with its low `n` bits replaced by those of `v`. -/
+def mergeLow (n : Nat) (old v : BitVec 64) : BitVec 64 := (old &&& ~~~ lowMask n) ||| (v &&& lowMask n)
+
+/-- The new content of a register whose old content is `old` when the low `sz` bits of `v` are written
+to it with the x86 rules for the rest of the register: 64 = all, 32 = zero the upper half, 16/8 = keep
+the other bits. -/
+def sizedWrite (sz : Size) (old v : BitVec 64) : BitVec 64 :=
+  match sz with
+  | .b64 => v
+  | .b32 => trunc 32 v
+  | .b16 => mergeLow 16 old v
+  | .b8 => mergeLow 8 old v
+
+/-- Write the low `sz` bits of `v` into register `r`. Writing `rsp`/`rbp` is outside the subset. -/
 def writeReg (m : MState w) (sz : Size) (r : Reg) (v : BitVec 64) : Option (MState w) :=
   if r = .rsp ∨ r = .rbp then none
-  else
-    let old := m.regs r
-    let nv : BitVec 64 :=
-      match sz with
-      | .b64 => v
-      | .b32 => trunc 32 v
-      | .b16 => (old &&& ~~~ 0xFFFF#64) ||| (v &&& 0xFFFF#64)
-      | .b8 => (old &&& ~~~ 0xFF#64) ||| (v &&& 0xFF#64)
-    some (m.setReg r nv)
+  else some (m.setReg r (sizedWrite sz (m.regs r) v))
 
 /-- Write an `r/m` operand of size `sz` (the low `sz` bits of `v`). -/
 def writePlace (m : MState w) (sz : Size) (v : BitVec 64) : Place → Option (MState w)
